@@ -229,6 +229,11 @@ def _ev(e, env):
     if isinstance(e, ast.BoolOp):
         vals = [_ev(v, env) for v in e.values]
         return all(vals) if isinstance(e.op, ast.And) else any(vals)
+    if isinstance(e, ast.Call) and isinstance(e.func, ast.Name) and e.func.id in ('min', 'max') and e.args and not e.keywords:
+        vals = [lin(_ev(a, env)).concrete() for a in e.args]
+        return min(vals) if e.func.id == 'min' else max(vals)
+    if isinstance(e, ast.Call) and isinstance(e.func, ast.Name) and e.func.id == 'abs' and len(e.args) == 1:
+        return abs(lin(_ev(e.args[0], env)).concrete())
     if isinstance(e, ast.Call) and U(e) == 't.weekday()':
         t = env['t']
         if t.off.c1 % 7:
@@ -245,7 +250,13 @@ def _ev(e, env):
 
 def _run(stmts, env):
     for s in stmts:
-        if isinstance(s, ast.Assign) and len(s.targets) == 1 and isinstance(s.targets[0], ast.Name):
+        if isinstance(s, ast.Assign) and len(s.targets) == 1 and isinstance(s.targets[0], ast.Tuple) and isinstance(s.value, ast.Call) and call_name(s.value) == 'divmod' \
+                and len(s.targets[0].elts) == 2 and len(s.value.args) == 2:
+            a, k = lin(_ev(s.value.args[0], env)), _ev(s.value.args[1], env)
+            k = lin(k).concrete() if isinstance(k, Lin) else k
+            env[s.targets[0].elts[0].id] = a.floordiv(k)
+            env[s.targets[0].elts[1].id] = a.mod(k)
+        elif isinstance(s, ast.Assign) and len(s.targets) == 1 and isinstance(s.targets[0], ast.Name):
             env[s.targets[0].id] = _ev(s.value, env)
         elif isinstance(s, ast.AugAssign) and isinstance(s.target, ast.Name):
             env[s.target.id] = _ev(ast.BinOp(ast.Name(s.target.id, ast.Load()), s.op, s.value), env)
